@@ -70,12 +70,12 @@ class Ref:
             i, j = ev[1], ev[2]
             # BS(pi/2, 0): a_i -> -a_j, a_j -> a_i
             self.tag[i], self.tag[j] = -self.tag[j], self.tag[i]
-        elif k == "Meas":
+        elif k in ("Meas", "MeasF"):
             self.tag[ev[1]] = 0.0
 
 
 def enabled(ref, pending, segs, cfg):
-    cap_total, cap_active, max_segs, max_pending = cfg
+    cap_total, cap_active, max_segs, max_pending = cfg[:4]
     act = ref.active
     evs = []
     if len(pending) < max_pending:
@@ -93,6 +93,8 @@ def enabled(ref, pending, segs, cfg):
         for i in act:
             evs.append(("Tag", i))
             evs.append(("Meas", i))
+            if len(cfg) > 4 and cfg[4] == "photon-counting":
+                evs.append(("MeasF", i))
         for a in range(len(act)):
             for b in range(len(act)):
                 if a != b:
@@ -149,6 +151,9 @@ class Impl:
                 self._do(lambda: ops.BSgate(np.pi / 2, 0.0) | (rr[ev[1]], rr[ev[2]]))
             elif k == "Meas":
                 self._do(lambda: ops.MeasureHomodyne(0.0, select=0.0) | rr[ev[1]])
+            elif k == "MeasF":
+                # product of coherent states: whatever is counted, only the measured mode changes (reset to vacuum)
+                self._do(lambda: ops.MeasureFock() | rr[ev[1]])
             elif k == "BadUseInt":
                 self._do(lambda: ops.Dgate(0.5, 0.0) | ev[1])
             elif k == "BadDelInt":
@@ -324,7 +329,7 @@ def run(ctx):
     plans = {
         "gaussian": ((5, 4, 3, 3), 5) if quick else ((6, 4, 3, 3), 6),
         "bosonic": ((5, 4, 2, 3), 5) if quick else ((6, 4, 2, 4), 6),
-        "fock": ((4, 3, 2, 2), 4) if quick else ((5, 3, 3, 3), 5),
+        "fock": ((4, 3, 2, 2, "photon-counting"), 4) if quick else ((5, 3, 3, 3, "photon-counting"), 5),
     }
     total_states = 0
     per = {}
